@@ -60,6 +60,7 @@ Section ActInd.
   Hypothesis HUnser : forall p, Forall P p -> P (AUnser p).
   Hypothesis HNotify : P ANotify.
   Hypothesis HNoRoute : forall p, Forall P p -> P (ANoRoute p).
+  Hypothesis HNotifyNR : P ANotifyNR.
 
   Fixpoint act_ind' (a : act) : P a :=
     let fix go (l : list act) : Forall P l :=
@@ -72,6 +73,7 @@ Section ActInd.
     | AUnser p => HUnser p (go p)
     | ANotify => HNotify
     | ANoRoute p => HNoRoute p (go p)
+    | ANotifyNR => HNotifyNR
     end.
 End ActInd.
 
@@ -163,7 +165,7 @@ Section Prims.
 
   Lemma exec_is_chain a : exec_chain a.
   Proof.
-    induction a as [p _|p _| |p IH] using act_ind'; intros f s tr.
+    induction a as [p _|p _| |p IH|] using act_ind'; intros f s tr.
     - change (exec M (AReq p) s) with (register M s false p).
       eapply istar_step; [apply IReg | apply istar_refl].
     - change (exec M (AUnser p) s) with (register M s true p).
@@ -177,6 +179,7 @@ Section Prims.
         with ([ENoRoute (ntags s); ECb (ntags s) RNoService] ++
               snd (exec_prog M p (set_ntags s (ntags s + 1)))).
       rewrite app_assoc. apply exec_prog_chain. exact IH.
+    - change (exec M ANotifyNR s) with (s, @nil ev). cbn [fst snd]. rewrite app_nil_r. apply istar_refl.
   Qed.
 
   Lemma exec_prog_istar p f s tr :
@@ -338,7 +341,7 @@ Section Prims.
   Lemma step_star s tr o :
     star (None, s, tr) (None, fst (step M s o), tr ++ snd (step M s o)).
   Proof.
-    destruct o as [a|id k| |id|h|h|dt|v]; cbn [step fst snd].
+    destruct o as [a|id k| |id|h|h|dt|v|v|u]; cbn [step fst snd].
     - eapply star_step; [apply PMark; left; reflexivity|].
       change (tr ++ EDo :: snd (exec M a s)) with (tr ++ [EDo] ++ snd (exec M a s)).
       rewrite app_assoc. apply istar_star. apply exec_is_chain.
@@ -354,6 +357,8 @@ Section Prims.
       destruct ((0 <=? v) && (v <=? M) && isnil (pending s)) eqn:E; [|constructor].
       apply star_one. apply andb_true_iff in E. destruct E as [E1 E2].
       apply PSetNext; [lia|]. destruct (pending s); [reflexivity | discriminate].
+    - apply star_one. apply PMark. right. reflexivity.
+    - apply star_one. apply PMark. right. reflexivity.
   Qed.
 
   Lemma run_star ops : forall s tr,
@@ -926,6 +931,89 @@ Lemma acc_from_app a tr1 tr2 :
 Proof.
   revert a. induction tr1 as [|e r IH]; intro a; cbn [acc_from app]; [reflexivity|].
   destruct (acc_step a e); [apply IH | reflexivity].
+Qed.
+
+(* ---- a response for an open id is completed by the very next event *)
+
+Definition resp_weak (tr : list ev) : Prop :=
+  forall pre id k rest, tr = pre ++ EResp id k :: rest -> open_in pre id ->
+    rest = [] \/
+    exists (t n : Z) (post : list ev), rest = ECb t (cls_of k) :: post /\
+                     In (EIssue t id n) pre /\ count_cb t pre = 0%nat.
+
+Definition RInv (a : ast) (tr : list ev) : Prop :=
+  resp_weak tr /\
+  (forall p id k, tr = p ++ [EResp id k] -> a_mode a = MMustCb id k \/ a_mode a = MMayDrop id).
+
+Lemma acc_step_resp_mode a id k a' :
+  acc_step a (EResp id k) = Some a' -> a_mode a' = MMustCb id k \/ a_mode a' = MMayDrop id.
+Proof.
+  unfold acc_step. destruct (a_mode a); cbn [acc_idle]; intro H; try discriminate;
+    inv H; cbn [a_mode]; destruct (aget id (a_open a)); auto.
+Qed.
+
+Lemma acc_step_mustcb a id k e a' :
+  a_mode a = MMustCb id k -> acc_step a e = Some a' ->
+  exists t n, e = ECb t (cls_of k) /\ aget id (a_open a) = Some (t, n).
+Proof.
+  intros Em H. unfold acc_step in H. rewrite Em in H. destruct e; try discriminate.
+  destruct (aget id (a_open a)) as [[t' n]|]; [|discriminate].
+  destruct ((tag =? t') && cls_eqb c (cls_of k)) eqn:C; [|discriminate].
+  apply andb_true_iff in C. destruct C as [C1 C2]. apply cls_eqb_eq in C2. subst c.
+  exists t', n. split; [f_equal; lia | reflexivity].
+Qed.
+
+Lemma RInv_init : RInv a0 [].
+Proof.
+  split.
+  - intros pre id k rest E. destruct pre; discriminate.
+  - intros p id k E. destruct p; discriminate.
+Qed.
+
+Lemma RInv_step a a' tr e :
+  AInv a tr -> RInv a tr -> acc_step a e = Some a' -> RInv a' (tr ++ [e]).
+Proof.
+  intros AI [RW RL] S. split.
+  - intros pre id k rest E O. apply snoc_split in E.
+    destruct E as [(-> & -> & E)|(rest' & -> & ->)]; [left; reflexivity|].
+    destruct (RW pre id k rest' eq_refl O) as [->|(t & n & post & -> & I & C)].
+    + right. cbn [app].
+      destruct (RL pre id k eq_refl) as [Em|Em].
+      * destruct (acc_step_mustcb a id k e a' Em S) as (t & n & -> & G).
+        destruct (ai_open _ _ AI id t n G) as (_ & C & _ & x & y & T & _).
+        exists t, n, []. split; [reflexivity|].
+        assert (I : In (EIssue t id n) (pre ++ [EResp id k])).
+        { rewrite T. apply in_or_app. right. left. reflexivity. }
+        apply in_snoc in I. destruct I as [I|I]; [|discriminate].
+        split; [exact I|]. rewrite count_cb_snoc in C. cbn [cb_inc] in C. lia.
+      * exfalso. pose proof (ai_mode _ _ AI) as Hm. rewrite Em in Hm. destruct Hm as [_ G].
+        apply (open_in_snoc_resp pre id id k) in O.
+        apply (AInv_open_in a _ id AI) in O. contradiction.
+    + right. exists t, n, (post ++ [e]). split; [reflexivity | split; assumption].
+  - intros p id k E. apply app_inj_tail in E. destruct E as [_ ->].
+    eapply acc_step_resp_mode. exact S.
+Qed.
+
+Lemma RInv_from tr2 : forall a tr a',
+  AInv a tr -> RInv a tr -> acc_from a tr2 = Some a' -> RInv a' (tr ++ tr2).
+Proof.
+  induction tr2 as [|e r IH]; intros a tr a' AI R S; cbn [acc_from] in S.
+  - inv S. rewrite app_nil_r. exact R.
+  - destruct (acc_step a e) as [a1|] eqn:E; [|discriminate].
+    change (e :: r) with ([e] ++ r). rewrite app_assoc.
+    eapply IH; [eapply acc_step_inv; eassumption | eapply RInv_step; eassumption | exact S].
+Qed.
+
+Lemma accepts_resp_completes tr : accepts tr = true -> resp_completes tr.
+Proof.
+  unfold accepts. destruct (acc_from a0 tr) as [a|] eqn:E; [|discriminate]. intro St.
+  pose proof (acc_from_inv tr a0 [] a AInv_init E) as AI. cbn [app] in AI.
+  destruct (RInv_from tr a0 [] a AInv_init RInv_init E) as [RW RL]. cbn [app] in RW, RL.
+  intros pre id k rest T O. destruct (RW pre id k rest T O) as [->|H]; [|exact H]. exfalso.
+  destruct (RL pre id k T) as [Em|Em]; unfold settled in St; rewrite Em in St; [discriminate|].
+  pose proof (ai_mode _ _ AI) as Hm. rewrite Em in Hm. destruct Hm as [_ G].
+  rewrite T in AI. apply (open_in_snoc_resp pre id id k) in O.
+  apply (AInv_open_in a _ id AI) in O. contradiction.
 Qed.
 
 (* the acceptor is sound for the trace clauses of the property *)
@@ -1557,7 +1645,7 @@ Section Monitor.
 
   Lemma head_ok_step s o : head_ok o (snd (step M s o)) = true.
   Proof.
-    destruct o as [a|id k| |id|h|h|dt|v]; cbn [step snd head_ok]; try reflexivity.
+    destruct o as [a|id k| |id|h|h|dt|v|v|u]; cbn [step snd head_ok]; try reflexivity.
     - unfold handle_resp. destruct (aget id (pending s)); cbn [snd]; rewrite Z.eqb_refl, kind_eqb_refl; reflexivity.
     - destruct (tick_shape M s h) as [(_ & o & -> & _)|(_ & ->)]; reflexivity.
     - destruct (tick_shape M s h) as [(_ & o & -> & _)|(_ & ->)]; reflexivity.
@@ -1567,7 +1655,7 @@ Section Monitor.
     tick_of (last_marker (tr ++ snd (step M s o))) = Some now ->
     forall id e, aget id (pending (fst (step M s o))) = Some e -> now <= e_dl e.
   Proof.
-    destruct o as [a|id k| |id|h|h|dt|v]; cbn [step snd fst].
+    destruct o as [a|id k| |id|h|h|dt|v|v|u]; cbn [step snd fst].
     - rewrite last_marker_block; [discriminate | reflexivity | apply exec_nomark].
     - unfold handle_resp. destruct (aget id (pending s)) eqn:G; cbn [snd].
       + rewrite last_marker_block; [discriminate | reflexivity | apply fire_facts].
@@ -1583,6 +1671,8 @@ Section Monitor.
       + rewrite (last_marker_block _ (ETick (clock (fst (tick M s h)))) o eq_refl Mk). intro K. inv K.
         apply tick_post. exact A.
       + rewrite last_marker_snoc. discriminate.
+    - rewrite last_marker_snoc. discriminate.
+    - rewrite last_marker_snoc. discriminate.
     - rewrite last_marker_snoc. discriminate.
     - rewrite last_marker_snoc. discriminate.
   Qed.
@@ -1650,6 +1740,14 @@ Proof. intros P NC. apply (model_trace_props M P ops NC). Qed.
 Lemma model_sent M ops : 1 <= M -> noclash (trace_g M ops) -> sent_after_issue (trace_g M ops).
 Proof. intros P NC. apply (model_trace_props M P ops NC). Qed.
 
+Lemma model_resp_completes M ops :
+  1 <= M -> noclash (trace_g M ops) -> resp_completes (trace_g M ops).
+Proof.
+  intros P NC. apply accepts_resp_completes.
+  destruct (model_accepted M P ops NC) as (a & Acc & Idle & _).
+  unfold accepts, settled. rewrite Acc, Idle. reflexivity.
+Qed.
+
 Lemma model_accepts M ops : 1 <= M -> noclash (trace_g M ops) -> accepts (trace_g M ops) = true.
 Proof.
   intros P NC. destruct (model_accepted M P ops NC) as (a & Acc & Idle & _).
@@ -1688,7 +1786,7 @@ Lemma step_keeps_armed M s o :
   armed s = true -> (forall h, o <> Tick h) -> (forall h, o <> TickReal h) ->
   armed (fst (step M s o)) = true.
 Proof.
-  intros A N1 N2. destruct o as [a|id k| |id|h|h|dt|v]; cbn [step fst].
+  intros A N1 N2. destruct o as [a|id k| |id|h|h|dt|v|v|u]; cbn [step fst].
   - apply (istar_armed M _ _ (exec_is_chain M a None s [])). exact A.
   - unfold handle_resp. destruct (aget id (pending s)) as [e|] eqn:G; cbn [fst]; [|exact A].
     unfold fire. rewrite G. cbn [fst set_pending armed].
@@ -1699,4 +1797,264 @@ Proof.
   - destruct (N2 h eq_refl).
   - destruct (0 <=? dt); exact A.
   - destruct ((0 <=? v) && (v <=? M) && isnil (pending s)); exact A.
+  - exact A.
+  - exact A.
+Qed.
+
+(* ------------------------------------------------------------------ a response for a pending id, state level *)
+
+Lemma resp_step M s id k e :
+  aget id (pending s) = Some e ->
+  let r := exec_prog M (e_prog e) s in
+  step M s (Resp id k) =
+    (set_pending (fst r) (adel id (pending (fst r))),
+     EResp id k :: ECb (e_tag e) (cls_of k) :: snd r) /\
+  aget id (pending (fst (step M s (Resp id k)))) = None /\
+  (noclash (snd r) -> forall id' e', id' <> id -> aget id' (pending s) = Some e' ->
+                      aget id' (pending (fst (step M s (Resp id k)))) = Some e') /\
+  (e_prog e = [] ->
+   step M s (Resp id k) =
+     (set_pending s (adel id (pending s)), [EResp id k; ECb (e_tag e) (cls_of k)])).
+Proof.
+  intros G r.
+  assert (E : step M s (Resp id k) =
+              (set_pending (fst r) (adel id (pending (fst r))),
+               EResp id k :: ECb (e_tag e) (cls_of k) :: snd r)).
+  { cbn [step]. unfold handle_resp. rewrite G. unfold fire. rewrite G. reflexivity. }
+  split; [exact E|]. rewrite E. cbn [fst set_pending pending]. split; [apply aget_adel_same|]. split.
+  - intros NC id' e' Ne H. rewrite aget_adel_other by exact Ne.
+    destruct (istar_facts M _ _ (exec_prog_istar M (e_prog e) None s [])) as (_ & _ & _ & o & T & _ & K).
+    unfold cs, ct in *; cbn [fst snd app] in *. subst o. apply K; assumption.
+  - intro P. unfold r. rewrite P. reflexivity.
+Qed.
+
+(* ------------------------------------------------------------------ the model agrees with itself
+   (the hints Corr.v derives from a run's own timeout order reproduce that run) *)
+
+Lemma timeout_tags_app a b : timeout_tags (a ++ b) = timeout_tags a ++ timeout_tags b.
+Proof.
+  induction a as [|e r IH]; [reflexivity|]. destruct e; cbn [timeout_tags app]; try exact IH.
+  destruct c; cbn [app]; rewrite ?IH; reflexivity.
+Qed.
+
+Lemma istar_no_timeouts M c c' :
+  istar M c c' -> exists o, ct c' = ct c ++ o /\ timeout_tags o = [].
+Proof.
+  induction 1 as [c|c1 c2 c3 H1 _ (o2 & T2 & N2)].
+  - exists []. rewrite app_nil_r. auto.
+  - assert (exists o1, ct c2 = ct c1 ++ o1 /\ timeout_tags o1 = []) as (o1 & T1 & N1).
+    { destruct H1 as [f s tr u p|f s tr|f s tr]; unfold ct; cbn [snd]; eexists; (split; [reflexivity|]).
+      - unfold register; cbn [snd]. destruct (aget (alloc_id M (next s)) (pending s)); destruct u; reflexivity.
+      - reflexivity.
+      - reflexivity. }
+    exists (o1 ++ o2). split; [rewrite T2, T1, app_assoc; reflexivity|].
+    rewrite timeout_tags_app, N1, N2. reflexivity.
+Qed.
+
+Definition tag_at (s : st) (id : Z) : Z :=
+  match aget id (pending s) with Some e => e_tag e | None => 0 end.
+
+Lemma dedup_all_seen r : forall seen, (forall x, In x r -> In x seen) -> dedup seen r = [].
+Proof.
+  induction r as [|x r IH]; intros seen H; [reflexivity|]. simpl.
+  assert (E : zmem x seen = true) by (apply zmem_In; apply H; left; reflexivity).
+  rewrite E. apply IH. intros y I. apply H. right. exact I.
+Qed.
+
+Lemma dedup_app_self l : forall seen r,
+  NoDup l -> (forall x, In x l -> ~ In x seen) -> (forall x, In x r -> In x l \/ In x seen) ->
+  dedup seen (l ++ r) = l.
+Proof.
+  induction l as [|x l IH]; intros seen r ND D S; cbn [app].
+  - apply dedup_all_seen. intros y I. destruct (S y I) as [[]|K]; exact K.
+  - inv ND. simpl. destruct (zmem x seen) eqn:E.
+    + apply zmem_In in E. exfalso. apply (D x); [left; reflexivity | exact E].
+    + f_equal. apply IH; [assumption| |].
+      * intros y I [->|K]; [contradiction | apply (D y); [right; exact I | exact K]].
+      * intros y I. destruct (S y I) as [[->|K]|K]; [right; left; reflexivity | left; exact K | right; right; exact K].
+Qed.
+
+Lemma filter_singleton (f : Z -> bool) (E : list Z) id :
+  NoDup E -> In id E -> (forall x, In x E -> (f x = true <-> x = id)) -> filter f E = [id].
+Proof.
+  induction E as [|y E IH]; intros ND I H; [inversion I|]. inv ND. simpl.
+  destruct (Z.eq_dec y id) as [->|Ne].
+  - assert (F : f id = true) by (apply H; [left; reflexivity | reflexivity]). rewrite F. f_equal.
+    assert (K : forall x, In x E -> f x = false).
+    { intros x Ix. destruct (f x) eqn:Fx; [|reflexivity]. apply H in Fx; [subst; contradiction | right; exact Ix]. }
+    clear - K. induction E as [|z E IH]; [reflexivity|]. simpl. rewrite (K z (or_introl eq_refl)).
+    apply IH. intros x Ix. apply K. right. exact Ix.
+  - destruct (f y) eqn:Fy; [apply H in Fy; [contradiction | left; reflexivity]|].
+    destruct I as [->|I]; [contradiction|]. apply IH; [assumption | exact I|].
+    intros x Ix. apply H. right. exact Ix.
+Qed.
+
+Lemma flat_map_singleton {A} (g : A -> list A) l : (forall x, In x l -> g x = [x]) -> flat_map g l = l.
+Proof.
+  induction l as [|x l IH]; intro H; [reflexivity|]. simpl. rewrite (H x (or_introl eq_refl)).
+  simpl. f_equal. apply IH. intros y I. apply H. right. exact I.
+Qed.
+
+Lemma list_eqb_refl {A} (eqb : A -> A -> bool) : (forall x, eqb x x = true) -> forall l, list_eqb eqb l l = true.
+Proof. intros H l. induction l as [|x l IH]; [reflexivity|]. simpl. rewrite H, IH. reflexivity. Qed.
+
+Lemma ev_eqb_refl e : ev_eqb e e = true.
+Proof.
+  destruct e; simpl; rewrite ?Z.eqb_refl, ?kind_eqb_refl, ?cls_eqb_refl; reflexivity.
+Qed.
+
+Lemma obs_eqb_refl o : obs_eqb o o = true.
+Proof.
+  destruct o as [e p a g s l]. simpl.
+  rewrite (list_eqb_refl ev_eqb ev_eqb_refl), Z.eqb_refl, peer_eqb_refl.
+  assert (Zl : zlist_eqb p p = true) by (apply zlist_eqb_spec; reflexivity).
+  rewrite Zl. destruct a; reflexivity.
+Qed.
+
+Section Rehint.
+  Variable M : Z.
+  Hypothesis M_pos : 1 <= M.
+
+  Definition tags_distinct (s : st) : Prop :=
+    forall id1 id2 e1 e2, aget id1 (pending s) = Some e1 -> aget id2 (pending s) = Some e2 ->
+                          e_tag e1 = e_tag e2 -> id1 = id2.
+
+  Lemma fire_all_tags l : forall s,
+    NoDup l -> (forall id, In id l -> aget id (pending s) <> None) ->
+    noclash (snd (fire_all M s l)) ->
+    timeout_tags (snd (fire_all M s l)) = map (tag_at s) l.
+  Proof.
+    induction l as [|id r IH]; intros s ND P NC; [reflexivity|]. inv ND.
+    cbn [fire_all snd map] in *. unfold fire in *.
+    destruct (aget id (pending s)) as [e|] eqn:G; [|exfalso; apply (P id); [left; reflexivity | exact G]].
+    cbn [fst snd] in *.
+    pose proof (exec_prog_istar M (e_prog e) None s []) as IS.
+    destruct (istar_no_timeouts M _ _ IS) as (o & T & N0).
+    destruct (istar_facts M _ _ IS) as (_ & _ & _ & o' & T' & _ & K).
+    unfold cs, ct in *; cbn [fst snd app] in *. subst o o'.
+    assert (NC' : noclash (snd (exec_prog M (e_prog e) s) ++
+                           snd (fire_all M (set_pending (fst (exec_prog M (e_prog e) s))
+                                  (adel id (pending (fst (exec_prog M (e_prog e) s))))) r)))
+      by (intros i sp I; apply (NC i sp); right; exact I).
+    apply noclash_app in NC'. destruct NC' as [NC1 NC2].
+    cbn [timeout_tags]. rewrite timeout_tags_app, N0. cbn [app]. unfold tag_at at 1. rewrite G. f_equal.
+    set (s1 := set_pending (fst (exec_prog M (e_prog e) s))
+                 (adel id (pending (fst (exec_prog M (e_prog e) s))))) in *.
+    assert (Keep : forall id', In id' r -> aget id' (pending s1) = aget id' (pending s)).
+    { intros id' I. unfold s1; cbn [set_pending pending].
+      rewrite aget_adel_other by (intro; subst; contradiction).
+      destruct (aget id' (pending s)) as [e'|] eqn:G'; [apply K; assumption|].
+      exfalso. apply (P id'); [right; exact I | exact G']. }
+    rewrite IH; [| assumption | | exact NC2].
+    - apply map_ext_in. intros id' I. unfold tag_at. rewrite (Keep id' I). reflexivity.
+    - intros id' I. rewrite (Keep id' I). apply P. right. exact I.
+  Qed.
+
+  Lemma order_rehint s h :
+    sorted (pending s) -> tags_distinct s ->
+    order (map (tag_at s) (order h s)) s = order h s.
+  Proof.
+    intros S D. destruct (order_spec h s) as [ND Sub].
+    assert (NE : NoDup (expired_ids s)).
+    { unfold expired_ids. apply NoDup_filter. apply sorted_nodup_keys. exact S. }
+    unfold order at 1. rewrite flat_map_concat_map, map_map, <- flat_map_concat_map.
+    rewrite (flat_map_singleton (fun id => filter (fun id' => tag_is s id' (tag_at s id)) (expired_ids s))).
+    - apply dedup_app_self; [exact ND | intros x _ [] |].
+      intros x I. left. unfold order. apply dedup_complete; [|intros []]. apply in_or_app. right. exact I.
+    - intros id I. apply filter_singleton; [exact NE | apply Sub; exact I|].
+      intros x Ix. destruct (expired_in s x Ix) as (ex & Gx & _).
+      destruct (expired_in s id (Sub id I)) as (ei & Gi & _).
+      unfold tag_is, tag_at. rewrite Gx, Gi. split.
+      + intro E. apply (D x id ex ei Gx Gi). lia.
+      + intros ->. rewrite Gx in Gi. inv Gi. apply Z.eqb_refl.
+  Qed.
+
+  Lemma tick_rehint s h :
+    sorted (pending s) -> tags_distinct s -> noclash (snd (tick M s h)) ->
+    tick M s (timeout_tags (snd (tick M s h))) = tick M s h.
+  Proof.
+    intros S D NC. unfold tick in *. destruct (armed s); [|reflexivity]. cbn [snd fst] in *.
+    unfold check_expired in *. destruct (isnil (pending s)); [reflexivity|].
+    cbn [timeout_tags].
+    change (ETick (clock s) :: snd (fire_all M s (order h s)))
+      with ([ETick (clock s)] ++ snd (fire_all M s (order h s))) in NC.
+    apply noclash_app in NC. destruct NC as [_ NC].
+    destruct (order_spec h s) as [ND Sub].
+    rewrite fire_all_tags; [|exact ND| |exact NC].
+    - rewrite order_rehint by assumption. reflexivity.
+    - intros id I. destruct (expired_in s id (Sub id I)) as (e & G & _). congruence.
+  Qed.
+
+  Lemma second_tick_quiet s h :
+    timeout_tags (snd (tick M (fst (tick M s h)) [])) = [].
+  Proof.
+    destruct (tick_shape M s h) as [(A & _)|(A & E)].
+    - set (s1 := fst (tick M s h)).
+      assert (Ex : expired_ids s1 = []).
+      { unfold expired_ids. assert (F : forall id, expired_b s1 id = false).
+        { intro id. unfold expired_b. destruct (aget id (pending s1)) as [e|] eqn:G; [|reflexivity].
+          pose proof (tick_post M s h A id e G). unfold s1. rewrite tick_clock. lia. }
+        induction (akeys (pending s1)) as [|x l IH]; [reflexivity|]. simpl. rewrite F. exact IH. }
+      unfold tick. destruct (armed s1); [|reflexivity]. cbn [snd]. unfold check_expired.
+      destruct (isnil (pending s1)); [reflexivity|]. unfold order. rewrite Ex. reflexivity.
+    - rewrite E. cbn [fst]. unfold tick. rewrite A. reflexivity.
+  Qed.
+
+  Definition rehint (o : op) (evs : list ev) : op :=
+    match o with
+    | Tick _ => Tick (timeout_tags evs)
+    | TickReal _ => TickReal (timeout_tags evs)
+    | _ => o
+    end.
+
+  Lemma step_rehint s o :
+    sorted (pending s) -> tags_distinct s -> noclash (snd (step M s o)) ->
+    step M s (rehint o (snd (step M s o))) = step M s o /\
+    got_of (rehint o (snd (step M s o))) = got_of o.
+  Proof.
+    intros S D NC. destruct o as [a|id k| |id|h|h|dt|v|v|u]; cbn [rehint]; try (split; reflexivity).
+    - cbn [step] in *. split; [apply tick_rehint; assumption | reflexivity].
+    - cbn [step snd] in *. split; [|reflexivity].
+      rewrite timeout_tags_app, second_tick_quiet, app_nil_r.
+      apply noclash_app in NC. destruct NC as [NC1 _].
+      rewrite tick_rehint by assumption. reflexivity.
+  Qed.
+
+  Lemma reach_tags_distinct h : noclash (trace_g M h) -> tags_distinct (final_g M h).
+  Proof.
+    intros NC id1 id2 e1 e2 G1 G2 E.
+    destruct (model_accepted M M_pos h NC) as (a & Acc & _ & _ & Op & _).
+    pose proof (acc_from_inv _ a0 [] a AInv_init Acc) as AI. cbn [app] in AI.
+    assert (O1 : aget id1 (a_open a) = Some (ent e1)) by (rewrite Op, G1; reflexivity).
+    assert (O2 : aget id2 (a_open a) = Some (ent e2)) by (rewrite Op, G2; reflexivity).
+    unfold ent in *. rewrite E in O1. eapply (ai_tags _ _ AI); eassumption.
+  Qed.
+
+  Lemma with_hints_cons o r b br :
+    with_hints (o :: r) (b :: br) =
+    rehint o (match b with Obs evs _ _ _ _ _ => evs end) :: with_hints r br.
+  Proof. destruct b. destruct o; reflexivity. Qed.
+
+  Lemma rehint_run r : forall h,
+    noclash (trace_g M (h ++ r)) ->
+    run_obs M (final_g M h) (with_hints r (run_obs M (final_g M h) r)) = run_obs M (final_g M h) r.
+  Proof.
+    induction r as [|o r IH]; intros h NC; [reflexivity|].
+    cbn [run_obs]. rewrite with_hints_cons. cbn [observe run_obs].
+    assert (E : h ++ o :: r = (h ++ [o]) ++ r) by (rewrite <- app_assoc; reflexivity).
+    rewrite E in NC. assert (NC1 : noclash (trace_g M (h ++ [o]))).
+    { rewrite trace_app in NC. apply noclash_app in NC. tauto. }
+    rewrite trace_snoc in NC1. apply noclash_app in NC1. destruct NC1 as [NC0 NCo].
+    destruct (sim_run M M_pos h) as [(S & _) _]. unfold cs in S; cbn [fst snd] in S.
+    destruct (step_rehint (final_g M h) o S (reach_tags_distinct h NC0) NCo) as [Es Eg].
+    rewrite Es. unfold observe. rewrite Eg. f_equal.
+    rewrite <- final_snoc. apply IH. exact NC.
+  Qed.
+End Rehint.
+
+Lemma agree_model ops : noclash (trace ops) -> agree (ops, run ops) = true.
+Proof.
+  intro NC. unfold agree, run. cbn [fst snd].
+  pose proof (rehint_run MaxReqId maxreqid_pos ops [] NC) as H. unfold final_g in H. cbn [run_from fst app] in H.
+  rewrite H. apply list_eqb_refl. exact obs_eqb_refl.
 Qed.
